@@ -1170,7 +1170,7 @@ def texts_for(run, eng, idx):
     if idx < 2 and not view:                        # default, legacy
         for t in gen_pairs(eng, rng, 2, 1):
             yield "pairs", t
-        for t in gen_pairs(eng, rng, 2, 2, sample=run.n(1500, 0)):
+        for t in gen_pairs(eng, rng, 2, 2, sample=run.n(800, 0)):
             yield "pairs+2prefix", t
         if not run.quick:
             for t in gen_pairs(eng, rng, 2, 2):
@@ -1182,9 +1182,9 @@ def texts_for(run, eng, idx):
         for t in gen_random(eng, rng, run.n(500, 10000)):
             yield "random", t
     elif not eng.calls and not view:                # the other factory kinds (delegates, keyword operator variants)
-        for t in gen_pairs(eng, rng, 2, 1, sample=run.n(300, 7000)):
+        for t in gen_pairs(eng, rng, 2, 1, sample=run.n(250, 7000)):
             yield "%s pairs" % eng.kind, t
-        for t in gen_random(eng, rng, run.n(300, 8000)):
+        for t in gen_random(eng, rng, run.n(250, 8000)):
             yield "%s random" % eng.kind, t
     else:
         tag = "earlier engine of a factory history" if view else "custom"
@@ -1213,7 +1213,11 @@ def correspondence(run):
             corpus_engs[key] = (eng_from_spec(c["engine"]), [], [])
         e, cases, meta = corpus_engs[key]
         if e.engine is not None:
-            check_text(run, e, c["text"], cases, meta, "corpus")
+            text = c["text"]
+            if c.get("pieces"):
+                text = Text(" ".join(c["pieces"]))
+                text.parts = list(c["pieces"])
+            check_text(run, e, text, cases, meta, "corpus")
     for e, cases, meta in corpus_engs.values():
         flush(run, e, cases, meta)
     for e in engs:
@@ -1257,7 +1261,7 @@ def oracle(run, deep):
             texts += list(gen_pairs(e, rng, 3, 1, sample=run.n(300, 20000) * (3 if deep else 1)))
             texts += list(gen_random(e, rng, run.n(400, 6000) * (3 if deep else 1)))
         elif not e.calls and e.view_index is None:
-            texts = list(gen_focus(e, rng)) + list(gen_pairs(e, rng, 2, 1, sample=run.n(300, 3000))) + list(gen_random(e, rng, run.n(300, 4000)))
+            texts = list(gen_focus(e, rng)) + list(gen_pairs(e, rng, 2, 1, sample=run.n(150, 3000))) + list(gen_random(e, rng, run.n(150, 4000)))
         else:
             texts = list(gen_focus(e, rng)) + list(gen_pairs(e, rng, 2, 1, sample=run.n(40, 300))) + list(gen_random(e, rng, run.n(40, 400)))
         for text in texts:
